@@ -74,6 +74,29 @@ def variants(line, rng):
             q = list(parts)
             for i, p in zip(idxs, ptrs): q[i] = _hex(p * 20)
             out.append(" ".join(q))
+        # past the 64 / 128-entry thresholds of inline tables and depth caps: >= 130 tokens
+        if all(len(p) <= 24 for p in ptrs) and any(p for p in ptrs):
+            q = list(parts)
+            reps = []
+            for i, p in zip(idxs, ptrs):
+                nt = max(1, p.count(b"/")); k = -(-130 // nt) if p else 1
+                reps.append((k, nt)); q[i] = _hex(p * k)
+            if op == "get" and len(q) > 2:
+                # move the range to the far end so that its bounds lie beyond the thresholds too
+                k, nt = reps[0]; shift = (k - 1) * nt
+                q[2] = re.sub(r"\d+", lambda m: str(int(m.group(0)) + shift) if int(m.group(0)) < 2 ** 32 else m.group(0), q[2])
+            out.append(" ".join(q))
+            q = list(parts)
+            for i, p in zip(idxs, ptrs): q[i] = _hex(b"/" * rng.choice([64, 65, 129, 130, 200]))
+            if op == "get" and len(q) > 2:
+                q[2] = re.sub(r"\d+", lambda m: str(rng.choice([63, 64, 65, 128, 129])) if int(m.group(0)) < 2 ** 32 else m.group(0), q[2])
+            out.append(" ".join(q))
+        # long prefix-related pairs: identical first 256+ bytes, different numbers of 256-byte blocks
+        if len(idxs) > 1 and 0 < len(ptrs[0]) <= 24:
+            k = -(-260 // len(ptrs[0]))
+            for a, b in ((k, 2 * k), (2 * k, k), (k, k)):
+                q = list(parts); q[idxs[0]] = _hex(ptrs[0] * a); q[idxs[1]] = _hex(ptrs[0] * b)
+                out.append(" ".join(q))
         # first argument doubled only (prefix relations between the arguments)
         if len(idxs) > 1:
             q = list(parts); q[idxs[0]] = _hex(ptrs[0] + ptrs[0]); out.append(" ".join(q))
@@ -89,7 +112,10 @@ PTR_ALPHA = [b"/", b"/", b".", b"a", b"a", b"~0", b"~1", b"0", b"-", b"}", b"\xe
 
 def _len(rng, lo, hi):
     # mostly word scale (8..24), one in five cache-line / SIMD-block scale (25..140)
-    return rng.randint(lo, hi) if rng.random() < 0.8 else rng.randint(hi + 1, 140)
+    r = rng.random()
+    if r < 0.78: return rng.randint(lo, hi)
+    if r < 0.92: return rng.randint(hi + 1, 140)
+    return rng.randint(250, 340)                # past 256-byte thresholds (stack scratch buffers, bulk paths)
 
 def _rand_str(rng, lo=8, hi=24):
     n = _len(rng, lo, hi)
@@ -169,6 +195,13 @@ def _wrap(doc, ptr_hex, kind, rng):
         k = rng.randint(7, 9)
         for _ in range(k): doc = "[" + doc + "]"
         return doc, (b"/0" * k + p).hex()
+    if kind == "deeper_arr":                    # past serde_json's recursion limit of 128
+        k = rng.choice([129, 130, 140])
+        return "[" * k + doc + "]" * k, (b"/0" * k + p).hex()
+    if kind == "wider_arr":                     # three-digit indices above 255
+        n, at = 300, rng.choice([256, 299])
+        elems = ["#i%d" % i for i in range(n)]; elems[at] = doc
+        return "[" + ",".join(elems) + "]", (b"/%d" % at + p).hex()
     if kind == "wide_arr":
         n, at = 120, rng.choice([100, 105, 119])
         elems = ["#i%d" % i for i in range(n)]; elems[at] = doc
@@ -176,6 +209,10 @@ def _wrap(doc, ptr_hex, kind, rng):
     if kind == "wide_obj":
         members = ["%s:#i%d" % (("k%02d" % i).encode().hex(), i) for i in range(25)] + ["77:" + doc]
         return "{" + ",".join(sorted(members)) + "}", (b"/w" + p).hex()
+    if kind == "edge_key":                      # a key with an escape whose length sits at a 64/128/256 boundary
+        key = b"a" * rng.choice([61, 62, 63, 64, 65, 66, 126, 127, 128, 129, 253, 254, 255, 256]) + rng.choice([b"/", b"~", b"/~", b"~1"])
+        enc = key.replace(b"~", b"~0").replace(b"/", b"~1")
+        return "{" + key.hex() + ":" + doc + "}", (b"/" + enc + p).hex()
     if kind == "long_key":
         key = b"a" * rng.choice([150, 200, 300])
         return "{" + key.hex() + ":" + doc + "}", (b"/" + key + p).hex()
@@ -189,10 +226,19 @@ def tree_variants(line, rng, prop):
         di, pi, vi = TREE_OPS[op]
         backend, doc, ptr = parts[1], parts[di], parts[pi]
         if not ptr.startswith("x"): return out
-        for kind in ("deep_obj", "deep_arr", "wide_arr", "wide_obj", "long_key"):
+        kinds = ["deep_obj", "deep_arr", "wide_arr", "wide_obj", "long_key", "edge_key"]
+        if rng.random() < 0.15: kinds += ["deeper_arr", "wider_arr"]
+        for kind in kinds:
             d2, p2 = _wrap(doc, ptr[1:], kind, rng)
             q = list(parts); q[di] = d2; q[pi] = "x" + p2
             out.append(" ".join(q))
+        pb = bytes.fromhex(ptr[1:])
+        # a long remainder to materialise / to fail on: > 64 tokens behind the original pointer
+        q = list(parts); q[pi] = "x" + (pb + b"/a" * rng.choice([64, 65, 70]) + b"/b").hex(); out.append(" ".join(q))
+        # three-digit indices (above 255) and a 20-digit overflow in the last position
+        for tok in (b"256", b"299", b"999", b"18446744073709551616"):
+            if rng.random() < 0.5:
+                q = list(parts); q[pi] = "x" + (pb[:pb.rfind(b"/")] + b"/" + tok if b"/" in pb else b"/" + tok).hex(); out.append(" ".join(q))
         # unusual scalar kinds where a boolean stood (C09 keeps to the common domain: floats only)
         if "#t" in line:
             kinds = [FLOAT] if prop == "C09" else ([FLOAT, BIGU] if backend == "json" else [FLOAT, DATE])
@@ -215,6 +261,32 @@ def tree_variants(line, rng, prop):
             if ok: out.append(" ".join([op, backend, d2] + new_steps))
     return out
 
+def same_length_families(lines, rng, n_templates=60):
+    """pointers of exactly the same byte length (256, 320) but different token structure, emitted back to back
+    (twice, in two orders) for the same operation: what a cache keyed by (address, length) gets wrong when the
+    allocator hands the same buffer out again"""
+    out = []
+    cand = [l for l in lines if l.split(" ", 1)[0] in PTR_ARGS and l.split(" ", 1)[0] not in ("buf_hist",)]
+    if not cand: return out
+    for l in rng.sample(cand, min(n_templates, len(cand))):
+        parts = l.split(" "); idxs = PTR_ARGS[parts[0]]
+        for L in (256, 320):
+            fam = []
+            for ntok in (1, 2, 3, 5, 64, L):
+                if ntok == L: fam.append(b"/" * L); continue
+                base = (L - ntok) // ntok; rem = (L - ntok) - base * ntok
+                toks = [b"a" * (base + (1 if i < rem else 0)) for i in range(ntok)]
+                fam.append(b"".join(b"/" + t for t in toks))
+            order = fam + fam[::-1] + fam
+            for f in order:
+                q = list(parts)
+                for i in idxs:
+                    if i < len(q): q[i] = _hex(f)
+                if parts[0] == "get" and len(q) > 2:
+                    q[2] = rng.choice(["rt@1", "rf@1", "r@0@2", "rt@2", "rti@0", "ri@0@1"])
+                out.append(" ".join(q))
+    return out
+
 def augment(prop, lines, seed, budget=40000):
     """extra lines derived from a deterministic sample of `lines`"""
     rng = random.Random(seed * 1000003 + int(prop[1:]))
@@ -234,6 +306,7 @@ def augment(prop, lines, seed, budget=40000):
     short = sorted(set(l for l in cand if len(l) <= 24))[:1200]
     rest = rng.sample(cand, min(1800, len(cand))) if cand else []
     seen, out = set(lines), []
+    out.extend(same_length_families(lines, rng))     # repeats are the point here: no de-duplication
     for v in wordscale(prop, lines, rng, budget // 3):
         if v not in seen:
             seen.add(v); out.append(v)
